@@ -45,7 +45,7 @@ func (o *C12) Check(x *h.Exec, ev *h.Event) {
 					x.Report("empty-content", "hover", "", fmt.Sprintf("hover at byte %d returned a range %v with empty content", off, hd.Range), &q)
 					return
 				}
-				if hd.Range.Filename != f.Name || hd.Range.Start.Byte > off || hd.Range.End.Byte < off {
+				if hd.Range.Filename != f.Name || hd.Range.Start.Byte > off || hd.Range.End.Byte <= off {
 					x.Report("range-excludes-cursor", "hover", "", fmt.Sprintf("hover at byte %d returned range %v (bytes %d..%d) and content %q", off, hd.Range, hd.Range.Start.Byte, hd.Range.End.Byte, short(hd.Content.Value, 80)), &q)
 					return
 				}
